@@ -335,7 +335,7 @@ impl Prop for C05 {
     }
 
     fn cases(tier: Tier) -> u64 {
-        tier.pick(4_000, 60_000)
+        tier.pick(40_000, 300_000)
     }
 
     fn strategy(tier: Tier) -> BoxedStrategy<Case> {
